@@ -126,11 +126,15 @@ package framework
 // number of ReverseOperation invocations so far (ghost): lets callers state "nothing is reversed for
 // an already undone entry" and "every still valid entry that is undone is reversed".
 //@ ghost reversals() int
+// number of ReverseOperation invocations that returned an error (ghost): Rollback / undoOperation fail only if one did
+//@ ghost reverseFailures() int
+//@ define revFailMono() bool = reverseFailures() >= old(reverseFailures())
 
 //@ func type:ReverseOperation
 //@   modifies *
 //@   ensures [assumed] logsGrow() && entriesKept() && newEntriesOK()
 //@   ensures [assumed] reversals() >= old(reversals()) + 1
+//@   ensures [assumed] revFailMono() && (result != nil ==> reverseFailures() >= old(reverseFailures()) + 1)
 //@   ensures [assumed] cache.evictCalls() == old(cache.evictCalls()) && cache.pipelinedCalls() == old(cache.pipelinedCalls()) && cache.bindCalls() == old(cache.bindCalls())
 //@   note every ReverseOperation value is one of the closures created in Evict/Pipeline/Allocate/undoOperation; each calls unevict/unpipeline/unallocate or Evict/Pipeline/Allocate/undoOperation, which only append to logs
 //@ end
@@ -140,8 +144,11 @@ package framework
 //@   modifies *
 //@   ensures [assumed] logsGrow() && entriesKept() && newEntriesOK()
 //@   ensures [assumed] reversals() >= old(reversals()) + 1
+//@   ensures [assumed] revFailMono() && (result != nil ==> reverseFailures() >= old(reverseFailures()) + 1)
 //@   ensures [assumed] cache.evictCalls() == old(cache.evictCalls()) && cache.pipelinedCalls() == old(cache.pipelinedCalls()) && cache.bindCalls() == old(cache.bindCalls())
+//@   ensures [assumed] !isUndoOp(recv) ==> (forall st *Statement :: len(st.operations) == old(len(st.operations)))
 //@   note assumed at invoke sites; the four implementations (below) just call the stored ReverseOperation and are verified against this statement
+//@   note assumed `!isUndoOp(recv) ==> no log grows`: evict/pipeline/allocate entries are only built in Evict/Pipeline/Allocate, with reverseOperation = the closures Evict$1/Pipeline$1/Allocate$1, each verified `ensures logsSame()` below (only the redo closures stored in undo entries append to a log)
 //@ end
 //@ func (evictOperation).Reverse
 //@   props C13
@@ -149,6 +156,7 @@ package framework
 //@   modifies *
 //@   ensures logsGrow() && entriesKept() && newEntriesOK()
 //@   ensures reversals() >= old(reversals()) + 1
+//@   ensures revFailMono() && (result != nil ==> reverseFailures() >= old(reverseFailures()) + 1)
 //@   ensures cache.evictCalls() == old(cache.evictCalls()) && cache.pipelinedCalls() == old(cache.pipelinedCalls()) && cache.bindCalls() == old(cache.bindCalls())
 //@ end
 //@ func (pipelineOperation).Reverse
@@ -157,6 +165,7 @@ package framework
 //@   modifies *
 //@   ensures logsGrow() && entriesKept() && newEntriesOK()
 //@   ensures reversals() >= old(reversals()) + 1
+//@   ensures revFailMono() && (result != nil ==> reverseFailures() >= old(reverseFailures()) + 1)
 //@   ensures cache.evictCalls() == old(cache.evictCalls()) && cache.pipelinedCalls() == old(cache.pipelinedCalls()) && cache.bindCalls() == old(cache.bindCalls())
 //@ end
 //@ func (allocateOperation).Reverse
@@ -165,6 +174,7 @@ package framework
 //@   modifies *
 //@   ensures logsGrow() && entriesKept() && newEntriesOK()
 //@   ensures reversals() >= old(reversals()) + 1
+//@   ensures revFailMono() && (result != nil ==> reverseFailures() >= old(reverseFailures()) + 1)
 //@   ensures cache.evictCalls() == old(cache.evictCalls()) && cache.pipelinedCalls() == old(cache.pipelinedCalls()) && cache.bindCalls() == old(cache.bindCalls())
 //@ end
 //@ func (undoOperation).Reverse
@@ -173,6 +183,7 @@ package framework
 //@   modifies *
 //@   ensures logsGrow() && entriesKept() && newEntriesOK()
 //@   ensures reversals() >= old(reversals()) + 1
+//@   ensures revFailMono() && (result != nil ==> reverseFailures() >= old(reverseFailures()) + 1)
 //@   ensures cache.evictCalls() == old(cache.evictCalls()) && cache.pipelinedCalls() == old(cache.pipelinedCalls()) && cache.bindCalls() == old(cache.bindCalls())
 //@ end
 
@@ -192,6 +203,8 @@ package framework
 //@   ensures [reversalsMonotone] old(reversals()) <= reversals()
 //@   ensures [validReversed] old(noUndoFor(s, index)) ==> reversals() >= old(reversals()) + 1
 //@   ensures [appendsUndoEntry] old(noUndoFor(s, index)) && result == nil ==> len(s.operations) > old(len(s.operations)) && targets(s, len(s.operations) - 1, index)
+//@   ensures [appendsOnlyUndo] !old(isUndoOp(s.operations[index])) ==> forall j int :: old(len(s.operations)) <= j && j < len(s.operations) ==> isUndoOp(s.operations[j])
+//@   ensures [failsOnlyIfReverseFails] revFailMono() && (reverseFailures() == old(reverseFailures()) ==> result == nil)
 //@ end
 
 //@ func (*Statement).Checkpoint
@@ -215,6 +228,7 @@ package framework
 //@   props C13
 //@   requires s != nil && wfLog(s)
 //@   modifies *
+//@   usestable Statement.ssn Session.ClusterInfo Session.Cache
 //@   loop 1
 //@     modifies *
 //@     invariant cp - 1 <= i && i < old(len(s.operations)) && 0 <= cp
@@ -225,6 +239,7 @@ package framework
 //@     invariant wfBack(s)
 //@     invariant wfTask(s)
 //@     invariant reversals() >= old(reversals())
+//@     invariant revFailMono()
 //@     invariant i == old(len(s.operations)) - 1 ==> s.operations == old(s.operations) && reversals() == old(reversals())
 //@     invariant i < old(len(s.operations)) - 1 && old(noUndoFor(s, len(s.operations) - 1)) ==> reversals() >= old(reversals()) + 1
 //@     invariant cache.evictCalls() == old(cache.evictCalls()) && cache.pipelinedCalls() == old(cache.pipelinedCalls()) && cache.bindCalls() == old(cache.bindCalls())
@@ -239,6 +254,8 @@ package framework
 //@   ensures [wfRev] wfRev(s)
 //@   ensures [wfBack] wfBack(s)
 //@   ensures [wfTask] wfTask(s)
+//@   ensures [ssnKept] ssnKept(s)
+//@   ensures [okIfNoReverseFailure] revFailMono() && (0 <= cp && cp <= old(len(s.operations)) && reverseFailures() == old(reverseFailures()) ==> result == nil)
 //@ end
 
 // C13: "any sequence ... that an action later discards": post len' == 0 on every path.
@@ -246,6 +263,7 @@ package framework
 //@   props C13
 //@   requires s != nil && wfLog(s)
 //@   modifies *
+//@   usestable Statement.ssn Session.ClusterInfo Session.Cache
 //@   loop 1
 //@     modifies *
 //@     invariant 0 - 1 <= i && i < old(len(s.operations))
@@ -255,6 +273,7 @@ package framework
 //@     invariant wfBack(s)
 //@     invariant wfTask(s)
 //@     invariant reversals() >= old(reversals())
+//@     invariant revFailMono()
 //@     invariant forall j int :: 0 <= j && j < old(len(s.operations)) ==> s.operations[j] == old(s.operations[j])
 //@     invariant i == old(len(s.operations)) - 1 ==> s.operations == old(s.operations) && reversals() == old(reversals())
 //@     invariant i < old(len(s.operations)) - 1 && old(noUndoFor(s, len(s.operations) - 1)) ==> reversals() >= old(reversals()) + 1
@@ -264,6 +283,8 @@ package framework
 //@   ensures [virtual] cache.evictCalls() == old(cache.evictCalls()) && cache.pipelinedCalls() == old(cache.pipelinedCalls()) && cache.bindCalls() == old(cache.bindCalls())
 //@   ensures [emptyIsNoop] old(len(s.operations)) == 0 ==> reversals() == old(reversals())
 //@   ensures [lastEntryReversed] old(len(s.operations)) > 0 && old(noUndoFor(s, len(s.operations) - 1)) ==> reversals() >= old(reversals()) + 1
+//@   ensures [ssnKept] ssnKept(s)
+//@   ensures [revFailMono] revFailMono()
 //@ end
 
 // ---- session_plugins.go: victim filters / scenario validators (C06) ----------------------------
@@ -417,6 +438,8 @@ package framework
 //@ define mapsOK(c *api.ClusterInfo) bool = (forall k in c.PodGroupInfos :: c.PodGroupInfos[k] != nil) && (forall k in c.Nodes :: c.Nodes[k] != nil)
 //@ define sessOK(ssn *Session) bool = ssn != nil && ssn.ClusterInfo != nil && handlersOK(ssn) && mapsOK(ssn.ClusterInfo)
 //@ define stmtOK(s *Statement) bool = s != nil && sessOK(s.ssn)
+// what survives a reverse closure (`modifies *`) thanks to the `stable` declarations at the end of this file
+//@ define ssnKept(s *Statement) bool = s.ssn == old(s.ssn) && s.ssn.ClusterInfo == old(s.ssn.ClusterInfo) && s.ssn.Cache == old(s.ssn.Cache)
 // the session skeleton (what stmtOK and the node/job look-ups depend on) is untouched
 //@ define sessionKept(ssn *Session) bool = (forall st *Statement :: st.ssn == old(st.ssn)) && ssn.ClusterInfo == old(ssn.ClusterInfo) && ssn.Cache == old(ssn.Cache) && sessOK(ssn) && (forall k string :: (k in ssn.ClusterInfo.Nodes) == old(k in ssn.ClusterInfo.Nodes))
 
@@ -440,6 +463,9 @@ package framework
 // the job's pod maps are not the node's pod map (same Go type, never shared)
 //@ define jobNodeSep(j *podgroup_info.PodGroupInfo, n *node_info.NodeInfo) bool = j != nil && n != nil ==> (forall k in j.PodSets :: j.PodSets[k].podInfos != n.PodInfos && (forall s2 in j.PodSets[k].podStatusIndex :: j.PodSets[k].podStatusIndex[s2] != n.PodInfos)) && (forall st in j.PodStatusIndex :: j.PodStatusIndex[st] != n.PodInfos)
 
+// placement (Status, NodeName) of every pre-existing task other than x is untouched
+//@ define othersPlacedKept(x *pod_info.PodInfo) bool = forall t *pod_info.PodInfo :: old(allocated(t)) && t != x ==> t.Status == old(t.Status) && t.NodeName == old(t.NodeName)
+
 // ---- un-ops ---------------------------------------------------------------------------------------
 // C13: "the matching un-op restores Status, NodeName, GPUGroups, IsVirtualStatus, ResourceClaimInfo
 // ... and fires the opposite handler".
@@ -459,9 +485,10 @@ package framework
 //@   ensures [restoresStatus] reclaimee.Status == previousStatus || reclaimee.Status == old(reclaimee.Status)
 //@   ensures [nodeNameKept] reclaimee.NodeName == old(reclaimee.NodeName)
 //@   ensures [oppositeHandler] deallocEvents() == old(deallocEvents()) && allocEvents() - old(allocEvents()) <= old(len(s.ssn.eventHandlers))
-//@   ensures [virtual] noEmission() && reversals() == old(reversals())
+//@   ensures [virtual] noEmission() && reversals() == old(reversals()) && reverseFailures() == old(reverseFailures())
 //@   ensures [logsSame] logsSame()
 //@   ensures [commitEnvKept] commitEnvKept(s.ssn)
+//@   ensures [othersPlacedKept] othersPlacedKept(reclaimee)
 //@ end
 
 //@ func (*Statement).unpipeline
@@ -481,7 +508,7 @@ package framework
 //@   ensures [failsIffNodeUnknown] (result != nil) == !old(task.NodeName in s.ssn.ClusterInfo.Nodes)
 //@   ensures [oppositeHandler] allocEvents() == old(allocEvents()) && deallocEvents() - old(deallocEvents()) <= old(len(s.ssn.eventHandlers))
 //@   ensures [noHandlerOnFailure] result != nil ==> deallocEvents() == old(deallocEvents())
-//@   ensures [virtual] noEmission() && reversals() == old(reversals())
+//@   ensures [virtual] noEmission() && reversals() == old(reversals()) && reverseFailures() == old(reverseFailures())
 //@   ensures [logsSame] logsSame()
 //@   ensures [commitEnvKept] commitEnvKept(s.ssn)
 //@ end
@@ -500,9 +527,10 @@ package framework
 //@   ensures [backToPending] task.Status == pod_status.Pending || task.Status == old(task.Status)
 //@   ensures [gpuGroupsKept] task.GPUGroups == old(task.GPUGroups) && task.ResourceClaimInfo == old(task.ResourceClaimInfo)
 //@   ensures [oppositeHandler] allocEvents() == old(allocEvents()) && deallocEvents() - old(deallocEvents()) <= old(len(s.ssn.eventHandlers))
-//@   ensures [virtual] noEmission() && reversals() == old(reversals())
+//@   ensures [virtual] noEmission() && reversals() == old(reversals()) && reverseFailures() == old(reverseFailures())
 //@   ensures [logsSame] logsSame()
 //@   ensures [commitEnvKept] commitEnvKept(s.ssn)
+//@   ensures [othersPlacedKept] othersPlacedKept(task)
 //@ end
 
 // ---- ops ------------------------------------------------------------------------------------------
@@ -548,7 +576,7 @@ package framework
 //@   ensures [nowReleasing] result == nil ==> reclaimeeTask.Status == pod_status.Releasing && reclaimeeTask.IsVirtualStatus
 //@   ensures [otherFieldsKept] reclaimeeTask.NodeName == old(reclaimeeTask.NodeName) && reclaimeeTask.GPUGroups == old(reclaimeeTask.GPUGroups) && reclaimeeTask.ResourceClaimInfo == old(reclaimeeTask.ResourceClaimInfo)
 //@   ensures [handlerPolarity] allocEvents() == old(allocEvents())
-//@   ensures [virtual] noEmission() && reversals() == old(reversals())
+//@   ensures [virtual] noEmission() && reversals() == old(reversals()) && reverseFailures() == old(reverseFailures())
 //@   # callers chain statement operations: with [lenGrows] + [prefixKept] + [newEntriesOK], wfLog(s) before the
 //@   # call gives wfLog(s) after it (the direct form `old(wfLog(s)) ==> wfLog(s)` is true but takes the solvers > 20 s here)
 //@   ensures [lenGrows] len(s.operations) >= old(len(s.operations))
@@ -577,7 +605,7 @@ package framework
 //@   ensures [reversible] result == nil ==> unbox(lastOp(s), "allocateOperation").reverseOperation != nil && unbox(lastOp(s), "allocateOperation").taskInfo != nil
 //@   ensures [nowAllocated] result == nil ==> task.Status == pod_status.Allocated && task.NodeName == hostname && task.IsVirtualStatus
 //@   ensures [handlerPolarity] deallocEvents() == old(deallocEvents())
-//@   ensures [virtual] noEmission() && reversals() == old(reversals())
+//@   ensures [virtual] noEmission() && reversals() == old(reversals()) && reverseFailures() == old(reverseFailures())
 //@   # callers chain statement operations: with [lenGrows] + [prefixKept] + [newEntriesOK], wfLog(s) before the
 //@   # call gives wfLog(s) after it (the direct form `old(wfLog(s)) ==> wfLog(s)` is true but takes the solvers > 20 s here)
 //@   ensures [lenGrows] len(s.operations) >= old(len(s.operations))
@@ -592,6 +620,7 @@ package framework
 //@   props C13
 //@   requires s != nil && wfLog(s) && taskToUndo != nil
 //@   modifies *
+//@   usestable Statement.ssn Session.ClusterInfo Session.Cache
 //@   loop 1
 //@     invariant 0 - 1 <= rangeindex && rangeindex < len(s.operations)
 //@     decreases len(s.operations) - rangeindex
@@ -600,7 +629,10 @@ package framework
 //@   ensures [newEntriesOK] forall j int :: old(len(s.operations)) <= j && j < len(s.operations) ==> okEntry(s.operations[j], j)
 //@   ensures [reversalsMonotone] old(reversals()) <= reversals()
 //@   ensures [emptyLogFails] old(len(s.operations)) == 0 ==> result != nil && reversals() == old(reversals())
+//@   ensures [appendsOnlyUndo] opName != "undo" ==> forall j int :: old(len(s.operations)) <= j && j < len(s.operations) ==> isUndoOp(s.operations[j])
 //@   ensures [virtual] cache.evictCalls() == old(cache.evictCalls()) && cache.pipelinedCalls() == old(cache.pipelinedCalls()) && cache.bindCalls() == old(cache.bindCalls())
+//@   ensures [ssnKept] ssnKept(s)
+//@   ensures [revFailMono] revFailMono()
 //@ end
 //@ func (*Statement).Unevict
 //@   inline
@@ -621,7 +653,8 @@ package framework
 //@   nopanic off
 //@   note nopanic off: with the C14 contracts of the node/job mutators in the context the nil-dereference obligations time out (no countermodel); the functional postconditions below are machine-checked
 //@   requires stmtOK(s) && wfLog(s) && task != nil
-//@   requires hostname in s.ssn.ClusterInfo.Nodes ==> (forall k in s.ssn.ClusterInfo.Nodes[hostname].PodInfos :: s.ssn.ClusterInfo.Nodes[hostname].PodInfos[k] != nil)
+//@   assume hostname in s.ssn.ClusterInfo.Nodes ==> (forall k in s.ssn.ClusterInfo.Nodes[hostname].PodInfos :: s.ssn.ClusterInfo.Nodes[hostname].PodInfos[k] != nil)
+//@   note the assume on PodInfos values (no nil task recorded on a node) is a node_info invariant like nodeReady; it was a `requires` before, but no caller can carry it across the `modifies *` statement operations
 //@   assume jobReady(s.ssn.ClusterInfo.PodGroupInfos[task.Job], task) && nodeReady(s.ssn.ClusterInfo.Nodes[hostname], task) && jobNodeSep(s.ssn.ClusterInfo.PodGroupInfos[task.Job], s.ssn.ClusterInfo.Nodes[hostname])
 //@   modifies *
 //@   loop 1
@@ -638,11 +671,43 @@ package framework
 //@   ensures [nowNominated] updateTaskIfExistsOnNode && result == nil ==> task.NodeName == hostname && task.IsVirtualStatus
 //@   ensures [handlerPolarity] updateTaskIfExistsOnNode ==> deallocEvents() == old(deallocEvents())
 //@   ensures [newEntriesOK] forall j int :: old(len(s.operations)) <= j && j < len(s.operations) ==> okEntry(s.operations[j], j)
-//@   # C03 "ShouldPipelineJob + ConvertAllAllocatedToPipelined": nominating never creates a bind entry. Only for the
-//@   # updateTaskIfExistsOnNode form: the other one may un-evict through Operation.Reverse, whose assumed contract allows any well-formed entry
-//@   ensures [noAllocateEntryAppended] updateTaskIfExistsOnNode ==> forall j int :: old(len(s.operations)) <= j && j < len(s.operations) ==> !isAllocateOp(s.operations[j])
+//@   # C03 "ShouldPipelineJob + ConvertAllAllocatedToPipelined": nominating never creates a bind entry (it appends one
+//@   # pipeline entry, or - un-evicting a task that still sits on the node - one undo entry)
+//@   ensures [noAllocateEntryAppended] forall j int :: old(len(s.operations)) <= j && j < len(s.operations) ==> !isAllocateOp(s.operations[j])
 //@   ensures [statusPipelinedOrKept] updateTaskIfExistsOnNode ==> task.Status == pod_status.Pipelined || task.Status == old(task.Status)
 //@   ensures [sessionKept] updateTaskIfExistsOnNode ==> sessionKept(s.ssn)
+//@   ensures [opCellsKept] updateTaskIfExistsOnNode ==> opCellsKept()
+//@   ensures [revFailMono] revFailMono() && (updateTaskIfExistsOnNode ==> reverseFailures() == old(reverseFailures()))
+//@ end
+
+// C03 "ShouldPipelineJob + ConvertAllAllocatedToPipelined": after the conversion no task of that job is left
+// as a real bind in the statement (every allocate entry of the job is replaced by a pipeline entry).
+//@ define noBindOf(o Operation, jobID common_info.PodGroupID) bool = !(isAllocateOp(o) && opTask(o).Job == jobID)
+//@ func (*Statement).ConvertAllAllocatedToPipelined
+//@   props C13 C03
+//@   nopanic off
+//@   note nopanic off: the type assertion op.(allocateOperation) and the slice reads are fine (Name() == "allocate"), but the nil-dereference obligations after the `modifies *` calls time out as in Pipeline
+//@   requires stmtOK(s) && wfLog(s)
+//@   modifies *
+//@   loop 1
+//@     modifies *
+//@     invariant 0 - 1 <= rangeindex && rangeindex < old(len(s.operations))
+//@     invariant stmtOK(s)
+//@     invariant reverseFailures() == old(reverseFailures())
+//@     invariant len(s.operations) >= old(len(s.operations))
+//@     invariant forall j int :: 0 <= j && j < old(len(s.operations)) ==> s.operations[j] == old(s.operations[j])
+//@     invariant forall p *Operation :: old(allocated(p)) ==> *p == old(*p)
+//@     invariant wfKnown(s)
+//@     invariant wfRev(s)
+//@     invariant wfBack(s)
+//@     invariant wfTask(s)
+//@     decreases old(len(s.operations)) - rangeindex
+//@   loop 2
+//@     invariant 0 - 1 <= rangeindex
+//@     invariant forall k int :: 0 <= k && k < len(newOperations) ==> noBindOf(newOperations[k], jobID)
+//@     decreases len(s.operations) - rangeindex
+//@   ensures [noBindLeftForJob] result == nil ==> forall j int :: 0 <= j && j < len(s.operations) ==> noBindOf(s.operations[j], jobID)
+//@   ensures [noReverseFailure] reverseFailures() == old(reverseFailures())
 //@ end
 
 // ---- the closures stored in log entries ---------------------------------------------------------
@@ -682,8 +747,9 @@ package framework
 //@   ensures [evictIffGroupKnown] old(reclaimee.Job in s.ssn.ClusterInfo.PodGroupInfos) ==> cache.evictCalls() == old(cache.evictCalls()) + 1
 //@   ensures [committedIsReal] result == nil ==> !reclaimee.IsVirtualStatus
 //@   ensures [logsSame] logsSame()
-//@   ensures [reversesNothing] reversals() == old(reversals())
+//@   ensures [reversesNothing] reversals() == old(reversals()) && reverseFailures() == old(reverseFailures())
 //@   ensures [commitEnvKept] commitEnvKept(s.ssn)
+//@   ensures [placementKept] forall t *pod_info.PodInfo :: old(allocated(t)) ==> t.Status == old(t.Status) && t.NodeName == old(t.NodeName)
 //@ end
 
 //@ func (*Statement).commitPipeline
@@ -717,11 +783,12 @@ package framework
 //@   ensures [failureKeepsStatus] result != nil ==> pod.Status == old(pod.Status)
 //@   ensures [placementKept] pod.NodeName == old(pod.NodeName) && pod.GPUGroups == old(pod.GPUGroups) && pod.IsVirtualStatus == old(pod.IsVirtualStatus)
 //@   ensures [logsSame] logsSame()
-//@   ensures [reversesNothing] reversals() == old(reversals())
+//@   ensures [reversesNothing] reversals() == old(reversals()) && reverseFailures() == old(reverseFailures())
 //@   ensures [noHandlers] allocEvents() == old(allocEvents()) && deallocEvents() == old(deallocEvents())
 //@   ensures [commitEnvKept] commitEnvKept(ssn)
 //@   nopanic off
 //@   note nopanic off: `&pod.Pod.CreationTimestamp.Time` (address of a field inside the opaque metav1.Time scalar, argument of a metrics no-op) is over-approximated by the engine as a fresh pointer
+//@   ensures [othersPlacedKept] othersPlacedKept(pod)
 //@ end
 
 //@ func (*Statement).cleanupFailedAllocation
@@ -737,7 +804,7 @@ package framework
 //@   loop 1
 //@     invariant 0 - 1 <= rangeindex && rangeindex < len(task.GPUGroups)
 //@     invariant cache.bindCalls() == old(cache.bindCalls())
-//@     invariant reversals() == old(reversals())
+//@     invariant reversals() == old(reversals()) && reverseFailures() == old(reverseFailures())
 //@     decreases len(task.GPUGroups) - rangeindex
 //@   ensures [oneBindAtMost] emitsOnly(0, 0, 1)
 //@   ensures [bindIffNodeKnown] cache.bindCalls() == old(cache.bindCalls()) + ite(old(task.NodeName in s.ssn.ClusterInfo.Nodes), 1, 0)
@@ -746,8 +813,9 @@ package framework
 //@   ensures [failedBindIsUnallocated] result != nil && old(task.NodeName in s.ssn.ClusterInfo.Nodes) ==> task.NodeName == ""
 //@   ensures [failedBindNotVirtual] result != nil && old(task.NodeName in s.ssn.ClusterInfo.Nodes) ==> !task.IsVirtualStatus
 //@   ensures [logsSame] logsSame()
-//@   ensures [reversesNothing] reversals() == old(reversals())
+//@   ensures [reversesNothing] reversals() == old(reversals()) && reverseFailures() == old(reverseFailures())
 //@   ensures [commitEnvKept] commitEnvKept(s.ssn)
+//@   ensures [othersPlacedKept] othersPlacedKept(task)
 //@ end
 
 // C13 (top): "Committing emits exactly the net effect of the steps still valid: ... nothing is
@@ -755,6 +823,11 @@ package framework
 // log is flat: entry j is live iff it is not an undo entry and no undo entry targets it.
 //@ define live(s *Statement, j int) bool = !isUndoOp(s.operations[j]) && noUndoFor(s, j)
 //@ define emitted() int = cache.evictCalls() + cache.pipelinedCalls() + cache.bindCalls()
+// C01 "whatever bind/evict API calls fail" (mechanism: commitAllocate/cleanupFailedAllocation undo a failed bind): a commit
+// takes no task off its node except THE task whose bind failed (so capacity held by pods whose Bind succeeded is not
+// handed out again). Stated on NodeName only: with the Status conjunct (Binding or unchanged; true and provable, it is
+// what commitAllocate [boundIsBinding] + [othersPlacedKept] give per step) Commit's obligations take 10-17 s.
+//@ define bindOK(t *pod_info.PodInfo) bool = t.NodeName == old(t.NodeName)
 //@ define commitReady(s *Statement) bool = stmtOK(s) && s.ssn.Cache != nil && bindFnsOK(s.ssn) && nodesShared(s.ssn.ClusterInfo) && (forall j int :: 0 <= j && j < len(s.operations) && isAllocateOp(s.operations[j]) ==> opTask(s.operations[j]).Pod != nil)
 
 //@ func (*Statement).Commit
@@ -769,7 +842,8 @@ package framework
 //@     invariant commitReady(s)
 //@     invariant cache.evictCalls() >= old(cache.evictCalls()) && cache.pipelinedCalls() >= old(cache.pipelinedCalls()) && cache.bindCalls() >= old(cache.bindCalls())
 //@     invariant emitted() - old(emitted()) <= rangeindex + 1
-//@     invariant reversals() == old(reversals())
+//@     invariant reversals() == old(reversals()) && reverseFailures() == old(reverseFailures())
+//@     invariant forall t *pod_info.PodInfo :: old(allocated(t)) ==> bindOK(t)
 //@     invariant (forall j int :: 0 <= j && j <= rangeindex ==> !old(live(s, j))) ==> emitted() == old(emitted())
 //@     invariant (forall j int :: 0 <= j && j <= rangeindex ==> !(old(live(s, j)) && isEvictOp(old(s.operations[j])))) ==> cache.evictCalls() == old(cache.evictCalls())
 //@     invariant (forall j int :: 0 <= j && j <= rangeindex ==> !(old(live(s, j)) && isPipelineOp(old(s.operations[j])))) ==> cache.pipelinedCalls() == old(cache.pipelinedCalls())
@@ -785,6 +859,9 @@ package framework
 //@   # C13 "nothing is emitted for undone steps" / C01 "whatever bind/evict API calls fail": committing never runs
 //@   # the reverse closure of a log entry - in particular a failing Bind must not undo the steps whose Bind succeeded
 //@   ensures [commit-reverses-nothing] reversals() == old(reversals())
+//@   ensures [noReverseFailure] reverseFailures() == old(reverseFailures())
+//@   ensures [onlyFailedBindUnallocated] forall t1 *pod_info.PodInfo, t2 *pod_info.PodInfo :: old(allocated(t1)) && old(allocated(t2)) && !bindOK(t1) && !bindOK(t2) ==> t1 == t2
+//@   ensures [successKeepsPlacements] result == nil ==> forall t *pod_info.PodInfo :: old(allocated(t)) ==> bindOK(t)
 //@ end
 
 // ---- session.go -----------------------------------------------------------------------------------
@@ -796,9 +873,117 @@ package framework
 //@   ensures result.ssn == ssn && len(result.operations) == 0 && result.sessionID == ssn.ID
 //@ end
 
-// ---- stable fields (engine batch 7): set by the constructors only (Session.Statement, openSession / plugin
-// registration); govc checks mechanically, per unit, that no storing function is reachable, and then keeps these cells of
-// pre-existing objects across `modifies *` havocs
+// ---- plugin dispatch called between statement operations (allocate path: C01 C03 C04) ---------------
+// These Session methods run the registered plugin callbacks (func-typed values: predicates, node/GPU
+// scoring, subset functions, capacity checks; OrderedNodesByTask additionally uses goroutines). They are
+// `trusted`: ASSUMED frame of plugin code, of the same nature as `type:ReverseOperation` above - a plugin
+// callback never touches a statement log or an Operation cell, never calls the cache emission points,
+// never runs a reverse closure, and leaves the session skeleton alone. Everything else may change
+// (fit errors recorded on the job, plugin-private state), hence `modifies *`.
+
+//@ declare jobCapacityVerdict(ssn *Session, job *podgroup_info.PodGroupInfo) bool
+
+//@ func (*Session).FittingNode
+//@   props C01 C03 C04
+//@   trusted
+//@   note assumed frame of the registered PredicateFns / capacity callbacks (function values); the verdict itself is not constrained here
+//@   requires ssn != nil
+//@   modifies *
+//@   ensures [logsSame] logsSame()
+//@   ensures [virtual] noEmission() && reversals() == old(reversals()) && reverseFailures() == old(reverseFailures())
+//@   ensures [sessionKept] old(sessOK(ssn)) ==> sessionKept(ssn)
+//@ end
+//@ func (*Session).PrePredicateFn
+//@   props C01 C03 C04
+//@   trusted
+//@   note assumed frame of the registered PrePredicateFns (function values)
+//@   requires ssn != nil
+//@   modifies *
+//@   ensures [logsSame] logsSame()
+//@   ensures [virtual] noEmission() && reversals() == old(reversals()) && reverseFailures() == old(reverseFailures())
+//@   ensures [sessionKept] old(sessOK(ssn)) ==> sessionKept(ssn)
+//@ end
+//@ func (*Session).PreJobAllocation
+//@   props C01 C03 C04
+//@   trusted
+//@   note assumed frame of the registered PreJobAllocationFns (function values)
+//@   requires ssn != nil
+//@   modifies *
+//@   ensures [logsSame] logsSame()
+//@   ensures [virtual] noEmission() && reversals() == old(reversals()) && reverseFailures() == old(reverseFailures())
+//@   ensures [sessionKept] old(sessOK(ssn)) ==> sessionKept(ssn)
+//@   ensures [jobKept] old(podgroup_info.setsOK(job) && podgroup_info.allTasksOK(job)) ==> podgroup_info.setsOK(job) && podgroup_info.allTasksOK(job)
+//@   note [jobKept] assumed: the registered PreJobAllocationFns (topology) do not touch the job's pod sets / tasks
+//@ end
+//@ func (*Session).IsJobOverQueueCapacityFn
+//@   props C01 C03 C04
+//@   trusted
+//@   note assumed frame of the registered IsJobOverCapacityFns (function values); every registered function (proportion) returns a non-nil result, as does the fallback
+//@   requires ssn != nil
+//@   modifies *
+//@   ensures [logsSame] logsSame()
+//@   ensures [virtual] noEmission() && reversals() == old(reversals()) && reverseFailures() == old(reverseFailures())
+//@   ensures [sessionKept] old(sessOK(ssn)) ==> sessionKept(ssn)
+//@   ensures [resultNonNil] result != nil
+//@   ensures [verdictNamed] result.IsSchedulable == jobCapacityVerdict(ssn, job)
+//@   note jobCapacityVerdict(ssn, job) is a naming device for the callback's verdict at this call (so that a caller can refer to it after later havocs); it equates the verdicts of two calls for the same (ssn, job), which is only meaningful while the queue/job state is unchanged between them - the callers under contract (common.AllocateJob) call it once
+//@ end
+//@ func (*Session).PodSetOrderFn
+//@   props C01 C03 C04
+//@   trusted
+//@   note assumed read-only: runs the registered PodSetOrderFns comparators (function values); the order itself is not constrained here
+//@   requires ssn != nil
+//@   pure
+//@ end
+//@ func (*Session).SubGroupSetOrderFn
+//@   props C01 C03 C04
+//@   trusted
+//@   note assumed read-only: runs the registered SubGroupSetOrderFns comparators (function values); the order itself is not constrained here
+//@   requires ssn != nil
+//@   pure
+//@ end
+//@ func (*Session).FittingGPUs
+//@   props C01 C02
+//@   trusted
+//@   note assumed read-only: ranks the node's GPU groups through the registered GpuOrderFn plugin callbacks (function values, outside the subset); the returned list is not constrained
+//@   requires ssn != nil && node != nil && pod != nil
+//@   pure
+//@ end
+// C04 "only nodes of the candidate set": the scoring step returns a re-ordered selection of its input
+// (nodes whose scoring failed are dropped), the subset step returns subsets of the parent node set.
+//@ func (*Session).OrderedNodesByTask
+//@   props C01 C03 C04
+//@   trusted
+//@   note goroutines + sync (outside the subset); assumed frame of the NodePreOrderFns / NodeOrderFns callbacks, and that the result only contains nodes of the input slice (the body appends input nodes to score buckets and concatenates the buckets)
+//@   requires ssn != nil
+//@   modifies *
+//@   ensures [logsSame] logsSame()
+//@   ensures [virtual] noEmission() && reversals() == old(reversals()) && reverseFailures() == old(reverseFailures())
+//@   ensures [sessionKept] old(sessOK(ssn)) ==> sessionKept(ssn)
+//@   ensures [onlyInputNodes] forall i int :: 0 <= i && i < len(result) ==> result[i] != nil && (exists j int :: 0 <= j && j < len(nodes) && nodes[j] == result[i])
+//@   ensures [inputKept] forall j int :: 0 <= j && j < len(nodes) ==> nodes[j] == old(nodes[j])
+//@ end
+//@ func (*Session).SubsetNodesFn
+//@   props C01 C03 C04
+//@   trusted
+//@   note assumed frame of the registered SubsetNodesFns (function values), and ASSUMED (not proved here) that every registered subset function (topology plugin) returns subsets of the node set it is given; with no function registered the result is the input set itself
+//@   requires ssn != nil
+//@   modifies *
+//@   ensures [logsSame] logsSame()
+//@   ensures [virtual] noEmission() && reversals() == old(reversals()) && reverseFailures() == old(reverseFailures())
+//@   ensures [sessionKept] old(sessOK(ssn)) ==> sessionKept(ssn)
+//@   ensures [subsetsOfParent] result1 == nil ==> forall a int, i int :: 0 <= a && a < len(result0) && 0 <= i && i < len(result0[a]) ==> result0[a][i] != nil && (exists j int :: 0 <= j && j < len(initNodeSet) && initNodeSet[j] == result0[a][i])
+//@ end
+
+// ---- stable fields (engine batches 7-9): written by constructors / plugin registration only; govc checks
+// mechanically, per havoc, that no storing function is reachable. Used only by units that say `usestable`.
 //@ stable Statement.ssn
+//@ stable Statement.sessionID
 //@ stable Session.ClusterInfo
 //@ stable Session.Cache
+//@ stable Session.eventHandlers
+//@ stable slicetype []*EventHandler
+//@ stable Session.ReclaimScenarioValidatorFns
+//@ stable Session.PreemptScenarioValidatorFns
+//@ stable Session.ReclaimVictimFilterFns
+//@ stable Session.PreemptVictimFilterFns
